@@ -218,7 +218,7 @@ def role(ctx, name):
     elif name == "member_to_expr":
         cands = fns_by_sig(ctx, lambda i: i == ["&%sJSXMemberExpr" % A], lambda o: o == A + "Expr")
     elif name == "v_model_parser":
-        cands = fns_by_sig(ctx, lambda i: len(i) == 4 and i[0] == "&%sJSXAttr" % A and i[1] == "bool", lambda o: o.endswith("Directive"))
+        cands = fns_by_sig(ctx, lambda i: len(i) == 4 and "&%sJSXAttr" % A in i and "bool" in i, lambda o: o.endswith("Directive"))
     elif name in ("v_slots_parser", "v_html_parser", "v_text_parser"):
         want = {"v_slots_parser": "Slots", "v_html_parser": "Html", "v_text_parser": "Text"}[name]
         cands = fns_by_sig(ctx, lambda i: i == ["&%sJSXAttr" % A], lambda o: o.endswith("Directive"))
@@ -346,31 +346,41 @@ def canonicalise_locals(ctx):
         binds = local_bindings(hb)
         by_ty_ref = {}
         for ty, nm in ref:
-            by_ty_ref.setdefault(ty, [])
-            if nm not in by_ty_ref[ty]:
-                by_ty_ref[ty].append(nm)
+            by_ty_ref.setdefault(ty, []).append(nm)
         by_ty_act = {}
-        for ty, nm, _ in binds:
-            by_ty_act.setdefault(ty, [])
-            if nm not in by_ty_act[ty]:
-                by_ty_act[ty].append(nm)
-        pair = {}
+        for ty, nm, bid in binds:
+            by_ty_act.setdefault(ty, []).append((nm, bid))
+        idmap = {}
         for ty, act in by_ty_act.items():
             refn = by_ty_ref.get(ty, [])
-            a2 = [x for x in act if x not in refn]
-            r2 = [x for x in refn if x not in act]
+            known = set(refn)
+            if all(nm in known for nm, _ in act):
+                continue
+            if len(act) == len(refn):
+                # same number of bindings of this type: pair them in source order; names the reference knows must sit where it has them
+                if all(nm == r for (nm, _), r in zip(act, refn) if nm in known):
+                    for (nm, bid), r in zip(act, refn):
+                        if nm != r:
+                            idmap[bid] = (nm, r)
+                continue
+            # otherwise pair the distinct unknown names with the distinct missing names, in order
+            a2 = [x for x in dict.fromkeys(nm for nm, _ in act) if x not in known]
+            live_names = {nm for nm, _ in act}
+            r2 = [x for x in dict.fromkeys(refn) if x not in live_names]
             if a2 and len(a2) == len(r2):
-                for x, y in zip(a2, r2):
-                    pair[(ty, x)] = y
-        if not pair:
+                m = dict(zip(a2, r2))
+                for nm, bid in act:
+                    if nm in m:
+                        idmap[bid] = (nm, m[nm])
+        if not idmap:
             continue
-        # one old name -> one new name, and the new name must not be carried by another live binding
+        # one old name -> one new name within the function (MIR and capture lists are renamed by name)
         by_old = {}
-        for (ty, x), y in pair.items():
-            by_old.setdefault(x, set()).add(y)
-        live = {nm for _, nm, _ in binds}
-        namemap = {x: next(iter(ys)) for x, ys in by_old.items() if len(ys) == 1 and next(iter(ys)) not in live}
-        idmap = {bid: namemap[nm] for ty, nm, bid in binds if nm in namemap and (ty, nm) in pair}
+        for bid, (old, new) in idmap.items():
+            by_old.setdefault(old, set()).add(new)
+        untouched = {nm for _, nm, bid in binds if bid not in idmap}
+        namemap = {o: next(iter(ns)) for o, ns in by_old.items() if len(ns) == 1 and o not in untouched}
+        idmap = {bid: new for bid, (old, new) in idmap.items() if old in namemap}
         if idmap:
             rename_locals(ctx.facts, hb, idmap, namemap)
             done[hb["path"]] = namemap
@@ -390,8 +400,11 @@ def inline_helpers(ctx):
         if b is not None:
             keep.add(b["crate"] + "::" + b["path"])
     done = normalise.inline_new_helpers(ctx.facts, keep)
-    if done:
+    hoisted = normalise.propagate_option_locals(ctx.facts)
+    if done or hoisted:
         ctx.cache.clear()
+    for k, v in hoisted.items():
+        done["option reads held in locals of " + k] = v
     return done
 
 
